@@ -269,6 +269,8 @@ func genScenario(o world.Opts) *Scenario {
 				b := a + 1 + simrt.Choice("c16.conflict-b", np-1-a)
 				shared := GenFile{Path: "plug_shared/same.go", Content: "package plug\n"}
 				sc.Plugins[a].Files = append(sc.Plugins[a].Files, shared)
+				// the second one may spell the path another way (all of these are one file below --out)
+				shared.Path = []string{"plug_shared/same.go", "./plug_shared/same.go", "/plug_shared/same.go", "plug_shared//same.go", "plug_shared/./same.go"}[simrt.ChoiceBias("c16.conflict-spelling", 5, 0.4)]
 				sc.Plugins[b].Files = append([]GenFile{shared}, sc.Plugins[b].Files...)
 				sc.Conflict = [2]int{a + 1, b + 1}
 			}
